@@ -20,7 +20,7 @@ PROPERTY = 'C14'
 LEVEL = 'model_checking'
 CASE_GUARD_S = {'quick': 300, 'thorough': 3600}  # a case is a composite (a block of expressions x all texts, ...)
 CHUNK = 4
-RULE = ('source kind {constant string, here-document, file, program output} x model frozen before transformation {no, yes} x transformer chain '
+RULE = ('source kind {constant string, here-document, file, program output, output of a program that is not repeatable (frozen first)} x model frozen before transformation {no, yes} x transformer chain '
         '(none, identity, char-case, filter constant true, replace, run cat, strip variants, filter -line-nums 2:, pairs of these) x every sequence of '
         '<= 2 (thorough 3) access events from {freeze, as_str, as_lines fully, as_lines first line only, as_lines in two steps, as_file, write_to} x '
         'mem_buff_size in {1, 2, |T|, |T|+1, 8192} x texts of length <= 2 (thorough 3) over {a, newline, CR, FF, NEL, LS} plus CR LF texts, texts around '
@@ -35,7 +35,7 @@ ASSUMPTIONS = [
 
 SIGMA = 'a\n\r\f\x85 '
 EVENTS = ('freeze', 'as_str', 'lines', 'lines1', 'lines2step', 'as_file', 'write_to')
-KINDS = ('const', 'here', 'file', 'program')
+KINDS = ('const', 'here', 'file', 'program', 'program-once')
 
 CHAINS = [
     (), (('identity',),), (('case', 'upper'),), (('filter', ('const', True)),), (('replace', 'x', 'y', False, None),),
@@ -60,7 +60,9 @@ def texts(tier):
     return ts
 
 
-BIG = ['\u00e9\n' * 5000, '\u00e9' * 9000 + '\ntail\n', 'x' * 8191 + '\n', 'x' * 8192 + '\n', ('y' * 99 + '\n') * 82, ('y' * 99 + '\n') * 300, 'z' * 20000]
+BIG = ['\u00e9\n' * 5000, '\u00e9' * 9000 + '\ntail\n', 'x' * 8191 + '\n', 'x' * 8192 + '\n', ('y' * 99 + '\n') * 82, ('y' * 99 + '\n') * 300, 'z' * 20000,
+       # around 2**16 (a read size that has nothing to do with the memory buffer)
+       'w' * 65535, 'w' * 65536, 'w' * 65537, ('v' * 63 + '\n') * 1030 + 'THE END', ('u' * 127 + '\n') * 1536]
 
 
 def event_seqs(tier):
@@ -199,6 +201,17 @@ def build_source(E, kind, text, counter, idx=0):
         name = 'src%d-%d.txt' % (counter[0] % 4, idx)
         E.write_act(name, text)
         src = '-contents-of -rel-act ' + name
+    elif kind == 'program-once':
+        # a generator that is not repeatable: its first run prints the text, every later run something else.  Once the source is frozen,
+        # every way of consuming it must give the one cached value (only sequences that freeze first are explored with this kind)
+        runs = [0]
+
+        def gen(rec, runs=runs, text=text):
+            runs[0] += 1
+            return {'out': text if runs[0] == 1 else 'REGENERATED (run %d)\n' % runs[0]}
+
+        procseam.SEAM.script['progonce'] = gen
+        src = '-stdout-from % progonce'
     else:
         procseam.SEAM.script['prog%d' % idx] = {'out': text}
         src = '-stdout-from %% prog%d' % idx
@@ -322,6 +335,8 @@ def _explore(res, kind, fm, ci, text, seqs, only_buf, bufs=None):
                 _T[key] = tr
                 _T[('trpid', buf, ci)] = id(E)
         for seq in seqs:
+            if kind == 'program-once' and not fm and seq[0] != 'freeze':
+                continue
             counter[0] += 1
             E.new_space()
             try:
